@@ -374,6 +374,19 @@ fn instruction_groups(tier: Tier) -> Vec<(String, Vec<Instruction>)> {
             }
         }
     }
+    // blake2s: every assignment of registers to (state, byte_count, message) x boundary offsets x finalize
+    for (rs, rb, rm) in itertools::iproduct!([Register::AP, Register::FP], [Register::AP, Register::FP], [Register::AP, Register::FP]) {
+        for (os, ob, om) in [(-5i16, -2i16, -1i16), (0, 1, 2), (-32768, 32767, -1), (32767, -32768, 0), (-1, -1, -1)] {
+            for finalize in [false, true] {
+                v.push(Instruction::new(
+                    InstructionBody::Blake2sCompress(Blake2sCompressInstruction { state: CellRef { register: rs, offset: os }, byte_count: CellRef { register: rb, offset: ob }, message: CellRef { register: rm, offset: om }, finalize }),
+                    true,
+                ));
+            }
+        }
+    }
+    {
+    }
     g.push(("qm31_blake(decode only)".into(), v));
     if tier == Tier::Thorough {
         // the full 16-bit range of every offset field, one field at a time (the others fixed)
@@ -501,8 +514,54 @@ fn run(ctx: &mut Ctx) {
                             ctx.violation("decoded-size-mismatch", format!("VM sees a {}-word instruction, toolchain emitted {}", dec.size(), enc.len()), json!({"instruction": text}));
                         }
                         if matches!(ins.body, InstructionBody::QM31AssertEq(_) | InstructionBody::Blake2sCompress(_)) {
+                            // no reference step for these: the decoded fields are compared with what the
+                            // instruction denotes (which operand is dst / op0 / op1, registers, offsets, extension)
+                            use cairo_vm::types::instruction::{ApUpdate, Op1Addr, OpcodeExtension, Register as VmReg, Res};
                             ctx.count("evaluations", 1);
-                            ctx.outcome("decode-only");
+                            let vreg = |r: Register| if r == Register::AP { VmReg::AP } else { VmReg::FP };
+                            let op1reg = |r: Register| if r == Register::AP { Op1Addr::AP } else { Op1Addr::FP };
+                            let mut wrong: Vec<String> = vec![];
+                            let mut expect = |what: &str, ok: bool, got: String| {
+                                if !ok {
+                                    wrong.push(format!("{what} (decoded {got})"));
+                                }
+                            };
+                            match &ins.body {
+                                InstructionBody::Blake2sCompress(b) => {
+                                    expect("dst is byte_count: register", dec.dst_register == vreg(b.byte_count.register), format!("{:?}", dec.dst_register));
+                                    expect("dst is byte_count: offset", dec.off0 == b.byte_count.offset as isize, dec.off0.to_string());
+                                    expect("op0 is state: register", dec.op0_register == vreg(b.state.register), format!("{:?}", dec.op0_register));
+                                    expect("op0 is state: offset", dec.off1 == b.state.offset as isize, dec.off1.to_string());
+                                    expect("op1 is message: register", dec.op1_addr == op1reg(b.message.register), format!("{:?}", dec.op1_addr));
+                                    expect("op1 is message: offset", dec.off2 == b.message.offset as isize, dec.off2.to_string());
+                                    expect("extension", dec.opcode_extension == if b.finalize { OpcodeExtension::BlakeFinalize } else { OpcodeExtension::Blake }, format!("{:?}", dec.opcode_extension));
+                                    expect("ap++", (dec.ap_update == ApUpdate::Add1) == ins.inc_ap, format!("{:?}", dec.ap_update));
+                                }
+                                InstructionBody::QM31AssertEq(q) => {
+                                    expect("dst register", dec.dst_register == vreg(q.a.register), format!("{:?}", dec.dst_register));
+                                    expect("dst offset", dec.off0 == q.a.offset as isize, dec.off0.to_string());
+                                    expect("extension", dec.opcode_extension == OpcodeExtension::QM31Operation, format!("{:?}", dec.opcode_extension));
+                                    if let ResOperand::BinOp(bo) = &q.b {
+                                        expect("op0 register", dec.op0_register == vreg(bo.a.register), format!("{:?}", dec.op0_register));
+                                        expect("op0 offset", dec.off1 == bo.a.offset as isize, dec.off1.to_string());
+                                        expect("res", dec.res == if bo.op == Operation::Add { Res::Add } else { Res::Mul }, format!("{:?}", dec.res));
+                                        match &bo.b {
+                                            DerefOrImmediate::Deref(c) => {
+                                                expect("op1 register", dec.op1_addr == op1reg(c.register), format!("{:?}", dec.op1_addr));
+                                                expect("op1 offset", dec.off2 == c.offset as isize, dec.off2.to_string());
+                                            }
+                                            DerefOrImmediate::Immediate(_) => expect("op1 immediate", dec.op1_addr == Op1Addr::Imm && dec.off2 == 1, format!("{:?}/{}", dec.op1_addr, dec.off2)),
+                                        }
+                                    }
+                                }
+                                _ => {}
+                            }
+                            if wrong.is_empty() {
+                                ctx.outcome("decoded-fields-match");
+                            } else {
+                                let kind = if matches!(ins.body, InstructionBody::Blake2sCompress(_)) { "blake2s" } else { "qm31" };
+                                ctx.violation(format!("decoded-fields-differ:{kind}"), format!("the VM decodes `{text}` with {}", wrong.join("; ")), json!({"instruction": text}));
+                            }
                             continue;
                         }
                         // (ii) one VM step from each prepared machine state
@@ -616,7 +675,7 @@ fn run(ctx: &mut Ctx) {
 pub static C16: CheckDef = CheckDef {
     id: "C16",
     level: "exploration",
-    rule: "Complete enumeration of instruction shapes accepted by Instruction::assemble: AssertEq x dst cell x ResOperand {Deref, DoubleDeref, Immediate, BinOp{Add,Mul} x {Deref,Immediate}} x inc_ap; AddAp x ResOperand; Jump/Call x {rel,abs} x {Deref,Immediate} (x inc_ap for jumps); Jnz x condition cell x {Deref,Immediate} x inc_ap; Ret; QM31AssertEq and Blake2sCompress (size/decoding only). Registers {ap,fp} x offsets {-32768,-2,-1,0,1,32767} (thorough adds -32767,2,32766) in every offset field; thorough additionally sweeps the FULL 16-bit range (all 65 536 values) of each offset field in turn - destination, dereferenced operand, double-deref base and inner offset, either BinOp operand, jnz condition, jump/call target, add_ap operand - for both registers (1.3 M further instructions); immediates {0,1,-1,2,2^15,2^64,2^128,P-1} (thorough adds 2^16,2^63,(P-1)/2,-2^127,7,2^250). For each shape x machine state {ap=fp, ap=fp+5, dst unknown (deduction), dst known-different (must fail)}: cairo-vm decodes the assembled word, decoded size == encode().len() == op_size(), and ONE real VirtualMachine::step_instruction from the prepared state yields exactly the pc/ap/fp and memory writes (or the failure) of a reference step written from the instruction's meaning. distinct_nontrivial = distinct instruction texts.",
+    rule: "Complete enumeration of instruction shapes accepted by Instruction::assemble: AssertEq x dst cell x ResOperand {Deref, DoubleDeref, Immediate, BinOp{Add,Mul} x {Deref,Immediate}} x inc_ap; AddAp x ResOperand; Jump/Call x {rel,abs} x {Deref,Immediate} (x inc_ap for jumps); Jnz x condition cell x {Deref,Immediate} x inc_ap; Ret; QM31AssertEq and Blake2sCompress (size, and every decoded field - which operand is dst / op0 / op1, registers, offsets, result logic, opcode extension, ap++ - against what the instruction denotes; blake2s over every assignment of registers to (state, byte_count, message) x 5 offset triples x finalize). Registers {ap,fp} x offsets {-32768,-2,-1,0,1,32767} (thorough adds -32767,2,32766) in every offset field; thorough additionally sweeps the FULL 16-bit range (all 65 536 values) of each offset field in turn - destination, dereferenced operand, double-deref base and inner offset, either BinOp operand, jnz condition, jump/call target, add_ap operand - for both registers (1.3 M further instructions); immediates {0,1,-1,2,2^15,2^64,2^128,P-1} (thorough adds 2^16,2^63,(P-1)/2,-2^127,7,2^250). For each shape x machine state {ap=fp, ap=fp+5, dst unknown (deduction), dst known-different (must fail)}: cairo-vm decodes the assembled word, decoded size == encode().len() == op_size(), and ONE real VirtualMachine::step_instruction from the prepared state yields exactly the pc/ap/fp and memory writes (or the failure) of a reference step written from the instruction's meaning. distinct_nontrivial = distinct instruction texts.",
     assumptions: &["cairo-vm 3.2.0 is the execution semantics of bytecode (the assembler is checked against it)", "operand cells hold felts except where the form needs a pointer (DoubleDeref base, abs jump/call target, ret frame); aliasing states with conflicting needs are skipped and counted"],
     run,
     stack_mb: 8,
